@@ -297,6 +297,45 @@ func judgeNavigation(res *core.CaseResult, w *dbgWorld, s *source, r *rand.Rand,
 		}
 		res.Key("nav", strings.SplitN(name, "(", 2)[0], after.active, after.cursor == 0, after.cursor == after.n)
 	}
+	// directed: the checks filter as the only active one (every filter of the
+	// Filters group off): stepping through the list must not rest on a check
+	hasCheck := false
+	for _, tx := range cs.txs {
+		if tx.IsCheck {
+			hasCheck = true
+		}
+	}
+	if !hasCheck {
+		return
+	}
+	w.d.Mach.Remove(ssGroupFilters(), nil)
+	w.d.Mach.Add1(ss.FilterChecks, nil)
+	w.idle()
+	v = w.view()
+	if v == nil || len(v.filters) != 1 || !v.filters[ss.FilterChecks] {
+		res.Count("checks_only_filter_not_reached", 1)
+		return
+	}
+	w.cmd(ss.ScrollToTx, &types.A{CursorTx1: 1})
+	for k := 0; k < len(cs.txs)+2; k++ {
+		at := w.view()
+		if at == nil || at.cursor >= at.n {
+			break
+		}
+		w.cmd(ss.UserFwd, nil)
+		after := w.view()
+		if after == nil || after.cursor == at.cursor {
+			break
+		}
+		res.Evals++
+		if after.cursor > 0 && after.cursor-1 < len(cs.txs) && cs.txs[after.cursor-1].IsCheck {
+			res.Violate("C16/filter/cursor-on-non-matching/checks-filter-alone", fmt.Sprintf(
+				"with the checks filter as the only active filter, forward from cursor %d rests on record %d (%s), a check", at.cursor, after.cursor-1, txDesc(cs, after.cursor-1)), nil)
+			return
+		}
+	}
+	res.Key("nav", "checks-filter-alone")
+	res.Count("walks_with_the_checks_filter_alone", 1)
 }
 
 func fnames(f map[string]bool) []string {
